@@ -125,29 +125,63 @@ Theorem C17_bad_kek_is_error : forall label kek key d,
 Proof. exact envelope_bad_kek. Qed.
 Print Assumptions C17_bad_kek_is_error.
 
-(* unwrapping succeeds exactly when the RFC 3394 integrity check passes; never panics on >= 16 bytes *)
+(* EVERY byte string as AESKey (a peer's JSON may carry any even-length hex string, or none): Unwrap returns a key
+   exactly when the data has 24 bytes - three 64-bit blocks, len(AES128Key) + 8 - and the RFC 3394 integrity
+   check passes under this KEK; otherwise it returns its error; it never panics *)
+Theorem C17_unwrap_ok_iff : forall d kek k,
+  envelope_unwrap_any d kek = Ok k <->
+  length d = 24%nat /\ exists p, unwrap_any kek d = Some p /\ k = copy16 p.
+Proof. exact envelope_unwrap_any_ok_iff. Qed.
+Print Assumptions C17_unwrap_ok_iff.
+
+Theorem C17_unwrap_total : forall d kek,
+  (envelope_unwrap_any d kek = Err \/ exists k, envelope_unwrap_any d kek = Ok k) /\
+  envelope_unwrap_any d kek <> Panic.
+Proof. exact (fun d kek => conj (envelope_unwrap_any_total d kek) (envelope_unwrap_any_never_panics d kek)). Qed.
+Print Assumptions C17_unwrap_total.
+
+(* in terms of the recovered initial value (24 bytes of data, an accepted KEK) *)
 Theorem C17_unwrap_ok_iff_iv : forall d kek,
-  (length kek = 16 \/ length kek = 24 \/ length kek = 32)%nat -> (16 <= length d)%nat ->
+  (length kek = 16 \/ length kek = 24 \/ length kek = 32)%nat -> length d = 24%nat ->
   exists iv plain, unwrap_raw_any kek d = Some (iv, plain) /\
     (forall k, envelope_unwrap_any d kek = Ok k <-> iv = default_iv /\ k = copy16 plain) /\
-    (envelope_unwrap_any d kek = Err <-> iv <> default_iv) /\
-    envelope_unwrap_any d kek <> Panic.
+    (envelope_unwrap_any d kek = Err <-> iv <> default_iv).
 Proof. exact envelope_unwrap_any_ok_iff_iv. Qed.
 Print Assumptions C17_unwrap_ok_iff_iv.
 
-(* and then the data is a genuine wrap under this KEK *)
-Theorem C17_unwrap_only_wrapped : forall d kek k n,
-  (length kek = 16 \/ length kek = 24 \/ length kek = 32)%nat ->
+(* and then the key has 16 bytes and the data is exactly its wrap under this KEK: nothing is truncated, padded or ignored *)
+Theorem C17_unwrap_only_wrapped : forall d kek k,
   Forall (fun b => b < 256) kek -> Forall (fun b => b < 256) d ->
-  length d = (8 * (n + 1))%nat -> (1 <= n)%nat ->
-  envelope_unwrap_any d kek = Ok k -> exists p, k = copy16 p /\ wrap_any kek p = Some d.
+  envelope_unwrap_any d kek = Ok k -> length d = 24%nat /\ length k = 16%nat /\ wrap_any kek k = Some d.
 Proof. exact envelope_unwrap_any_only_wrapped. Qed.
 Print Assumptions C17_unwrap_only_wrapped.
 
-(* for 16-byte KEKs this is the AES-128 envelope model that C16 (join-server) uses *)
+(* the code before the repair C17-3 (known/C17.json): no data, 7 bytes, the bare IV: run-time panic; the RFC 3394 4.4
+   wrapping of 24 bytes of key data: success with the first 16 bytes; a wrapping of 8 bytes: success with 8 zero bytes
+   added; a trailing byte: ignored.  On 24 bytes of data old and new code agree. *)
+Theorem C17_unwrap_orig_refuted :
+  envelope_unwrap_any_orig [] (seq_bytes 16) = Panic /\
+  envelope_unwrap_any_orig [1; 2; 3; 4; 5; 6; 7] (seq_bytes 24) = Panic /\
+  envelope_unwrap_any_orig default_iv (seq_bytes 32) = Panic /\
+  envelope_unwrap_any_orig rfc3394_4_4 (seq_bytes 24) = Ok (firstn 16 kd192) /\
+  match wrap_any (seq_bytes 16) (seq_bytes 8) with
+  | Some w => length w = 16%nat /\ envelope_unwrap_any_orig w (seq_bytes 16) = Ok (seq_bytes 8 ++ repeat 0 8)
+  | None => False
+  end /\
+  envelope_unwrap_any_orig (rfc3394_4_2 ++ [255]) (seq_bytes 24) = Ok kd128.
+Proof. exact unwrap_orig_refuted. Qed.
+Print Assumptions C17_unwrap_orig_refuted.
+
+Theorem C17_unwrap_orig_agrees_on_24 : forall d kek, length d = 24%nat ->
+  envelope_unwrap_any d kek = envelope_unwrap_any_orig d kek.
+Proof. exact unwrap_orig_agrees_on_24. Qed.
+Print Assumptions C17_unwrap_orig_agrees_on_24.
+
+(* for 16-byte KEKs NewKeyEnvelope is the AES-128 envelope model that C16 (join-server) uses; KeyEnvelope.v's Unwrap
+   is the code before the repair *)
 Theorem C17_envelope_128_agrees : forall kek, length kek = 16%nat ->
   (forall label key, new_key_envelope_any label kek key = new_key_envelope label kek key) /\
-  (forall d, envelope_unwrap_any d kek = envelope_unwrap d kek).
+  (forall d, envelope_unwrap_any_orig d kek = envelope_unwrap d kek).
 Proof. exact envelope_any_128. Qed.
 Print Assumptions C17_envelope_128_agrees.
 
@@ -182,6 +216,18 @@ Print Assumptions C17_civil_from_days_from_civil.
 
 (* 2000-02-29T23:59:59Z; 1999-12-31T23:59:00-00:01; the first second of the year 0 at +23:59; month 13, 30 February,
    29 February 2100, hour 24, second 60, lower-case z and a missing zone are refused; a fraction is accepted *)
+(* what RFC 3339 cannot carry (known finding C17-2): a zone offset with seconds comes back shifted, a zone offset of
+   25 h or more and a year beyond 9999 are printed but refused by the parser (Go accepts zone hours up to 24) *)
+Theorem C17_iso8601_known_refuted :
+  parse_rfc3339 (format_rfc3339 (-2208945600) 1172) = Some (-2208945568, 1140) /\
+  parse_rfc3339 (format_rfc3339 1592218800 90000) = None /\
+  parse_rfc3339 (format_rfc3339 1592398800 (-90000)) = None /\
+  parse_rfc3339 (format_rfc3339 316516248000 0) = None /\
+  parse_rfc3339 (format_rfc3339 1592222400 86400) = Some (1592222400, 86400) /\
+  parse_rfc3339 (format_rfc3339 1592222400 89940) = Some (1592222400, 89940).
+Proof. vm_compute. repeat split; reflexivity. Qed.
+Print Assumptions C17_iso8601_known_refuted.
+
 Example C17_iso8601_example :
   parse_rfc3339 (format_rfc3339 951868799 0) = Some (951868799, 0) /\
   format_rfc3339 946684800 (-60) = str [49; 57; 57; 57; 45; 49; 50; 45; 51; 49; 84; 50; 51; 58; 53; 57; 58; 48; 48; 45; 48; 48; 58; 48; 49] /\
